@@ -7,7 +7,7 @@ import os, re, subprocess
 from verifpy.common import ROOT, BUILD, LEAN, sh, Lock
 from verifpy.envelope import build_overlay
 
-def preempt_part(ctx, prop, scenario_filter):
+def preempt_part(ctx, prop, scenario_filter, accept=None):
     """run the preemption explorer on the scenarios matching the filter and collect this property's violations"""
     ov = build_overlay(ctx, sync=True)
     hx = ctx.build_go("hxconc", overlay=ov) if ov else None
@@ -18,7 +18,7 @@ def preempt_part(ctx, prop, scenario_filter):
     n = 0
     for l in lines:
         if l.startswith("sched"): n += 1
-        if ("prop=" + prop) in l and l.endswith("VIOLATION"):
+        if l.endswith("VIOLATION") and (accept(l) if accept else ("prop=" + prop) in l):
             ctx.monitor_fail.append({"what": l[:400], "signature": "conc " + l[:200],
                                      "case": "# replay: build/hxconc -mode preempt -scenario %s (deterministic; the schedule is the line below)\n%s" % (scenario_filter, l)})
     ctx.cov["evaluations"] += n
